@@ -342,6 +342,9 @@ where
         return Err(SnapshotLoadError::MachineNotSupported.into());
     }
 
+    // State of the interrupted instruction stream does not belong to the loaded machine
+    emulator.cpu.reset_execution_state();
+
     // ZXST Block Header
     asset.seek(SeekFrom::Start(cursor_pos))?;
     let mut block_header = [0u8; ZXST_BLOCK_HEADER_SIZE];
